@@ -2,7 +2,8 @@
 (***************************************************************************)
 (* Trace validation of the behaviours recorded by harness/hwv_synthetic    *)
 (* (C07).  One behaviour = one description:                                *)
-(*   Reset, set, [load, [perturb], export x flag words, reload x distinct  *)
+(*   Reset, [filter..], set, [filter..], [load, [perturb], export x flag   *)
+(*   words, reload x distinct                                              *)
 (*   exported texts], end                                                  *)
 (* Spec state: the abstract description (model behaviours), the summary of *)
 (* the current topology, the exported text per flag word, the texts that   *)
@@ -15,20 +16,28 @@ EXTENDS Synthetic, Json, IOUtils
 
 T == ndJsonDeserialize(IOEnv.TRACE)
 
-VARIABLES l, st, desc, cur, exp, rel
+VARIABLES l, st, desc, cur, exp, rel, flt
 
-vars == <<l, st, desc, cur, exp, rel>>
+vars == <<l, st, desc, cur, exp, rel, flt>>
 NoSum == [depth |-> 0]
 NoDesc == [ok |-> FALSE]
 
-Init == l = 1 /\ st = "none" /\ desc = NoDesc /\ cur = NoSum /\ exp = <<>> /\ rel = {}
+Init == l = 1 /\ st = "none" /\ desc = NoDesc /\ cur = NoSum /\ exp = <<>> /\ rel = {} /\ flt = DefaultFlt
 
 IsEvent(e) == l <= Len(T) /\ T[l].e = e /\ l' = l + 1
 E == T[l]
 
 TReset == /\ IsEvent("Reset")
           /\ E.beh >= 0
-          /\ st' = "init" /\ desc' = NoDesc /\ cur' = NoSum /\ exp' = <<>> /\ rel' = {}
+          /\ st' = "init" /\ desc' = NoDesc /\ cur' = NoSum /\ exp' = <<>> /\ rel' = {} /\ flt' = DefaultFlt
+
+\* hwloc_topology_set_type_filter before the load (before or after set_synthetic): the documented impossible
+\* combinations are refused and change nothing, the others are accepted
+TFilter == /\ IsEvent("filter")
+           /\ st \in {"init", "set"}
+           /\ FilterCallRel(E.type, E.kind, E.ret) = TRUE
+           /\ flt' = IF E.ret = 0 THEN ApplyFlt(flt, E.type, E.kind) ELSE flt
+           /\ UNCHANGED <<st, desc, cur, exp, rel>>
 
 \* hwloc_topology_set_synthetic on a description emitted by the model: the logged text is the rendering of the
 \* logged abstract description, which is well formed; valid descriptions of moderate depth must be accepted
@@ -39,7 +48,7 @@ TSetModel == /\ IsEvent("set") /\ E.model = 1
              /\ SetRel(E.d, E.ret, E.errno) = TRUE
              /\ st' = IF E.ret = 0 THEN "set" ELSE "refused"
              /\ desc' = [ok |-> TRUE, d |-> E.d]
-             /\ UNCHANGED <<cur, exp, rel>>
+             /\ UNCHANGED <<cur, exp, rel, flt>>
 
 \* ... on an arbitrary string: accepted, or refused with EINVAL
 TSetHostile == /\ IsEvent("set") /\ E.model = 0
@@ -47,7 +56,7 @@ TSetHostile == /\ IsEvent("set") /\ E.model = 0
                /\ E.len >= Len(E.text)
                /\ WeakSetRel(E.ret, E.errno)
                /\ st' = IF E.ret = 0 THEN "set" ELSE "refused"
-               /\ UNCHANGED <<desc, cur, exp, rel>>
+               /\ UNCHANGED <<desc, cur, exp, rel, flt>>
 
 \* hwloc_topology_load: an accepted model description loads, and into what it says; whatever loads is well formed
 TLoad == /\ IsEvent("load")
@@ -60,11 +69,11 @@ TLoad == /\ IsEvent("load")
                  /\ E.slot = 0 /\ Len(E.topos) = 1
                  /\ E.full = 1 => (E.topos[1].n > 0 /\ WellFormed(E.topos[1]) = TRUE /\ SumOf(E.topos[1]) = E.sum)
                  /\ E.full = 0 => E.topos[1].n = 0
-                 /\ (desc.ok => BuildRel(desc.d, E.sum)) = TRUE
+                 /\ (desc.ok => BuildRel(desc.d, flt, E.sum)) = TRUE
                  /\ st' = "loaded" /\ cur' = E.sum
             ELSE /\ E.sum.depth = 0 /\ E.topos[1].n = 0
                  /\ st' = "refused" /\ cur' = NoSum
-         /\ UNCHANGED <<desc, exp, rel>>
+         /\ UNCHANGED <<desc, exp, rel, flt>>
 
 \* hwloc_topology_restrict (judged by C08): the summary it leaves is adopted; a refusal changes nothing
 TPerturb == /\ IsEvent("perturb")
@@ -73,7 +82,7 @@ TPerturb == /\ IsEvent("perturb")
             /\ E.ret \in {0, -1}
             /\ E.ret = -1 => E.sum = cur
             /\ cur' = E.sum
-            /\ UNCHANGED <<st, desc, exp, rel>>
+            /\ UNCHANGED <<st, desc, exp, rel, flt>>
 
 \* hwloc_topology_export_synthetic with one flag word, at every buffer length
 TExport == /\ IsEvent("export")
@@ -87,7 +96,7 @@ TExport == /\ IsEvent("export")
            /\ Len(E.calls) >= 2 /\ E.calls[1][1] = 0 /\ E.calls[Len(E.calls)][1] = (IF E.rbig > 0 THEN E.rbig ELSE 0) + 1
            /\ (\A k \in DOMAIN E.calls : SnprintfRel(E.full, E.rbig, E.calls[k])) = TRUE
            /\ exp' = Append(exp, [flags |-> E.flags, ok |-> E.rbig >= 0, text |-> E.full, reload |-> E.reload])
-           /\ UNCHANGED <<st, desc, cur, rel>>
+           /\ UNCHANGED <<st, desc, cur, rel, flt>>
 
 \* the exported text is loaded into a second topology and exported again
 TReload == /\ IsEvent("reload")
@@ -97,17 +106,19 @@ TReload == /\ IsEvent("reload")
            /\ {E.flags[k] : k \in DOMAIN E.flags} = {exp[k].flags : k \in {x \in DOMAIN exp : exp[x].ok /\ exp[x].reload = 1 /\ exp[x].text = E.text}}
            /\ E.flags # <<>>
            /\ {E.re[k][1] : k \in DOMAIN E.re} = {E.flags[k] : k \in DOMAIN E.flags} \/ (E.re = <<>> /\ (E.set # 0 \/ E.load # 0))
-           /\ (\A k \in DOMAIN E.flags : KnownFlags(E.flags[k]) => RoundTripRel(cur, E.flags[k], E)) = TRUE
+           \* the second topology was given the type filters of the first one
+           /\ FltOf(E.flt) = flt /\ \A k \in DOMAIN E.flt : E.flt[k][3] = 0
+           /\ (\A k \in DOMAIN E.flags : KnownFlags(E.flags[k]) => RoundTripRel(cur, flt, E.flags[k], E)) = TRUE
            /\ rel' = rel \cup {E.text}
-           /\ UNCHANGED <<st, desc, cur, exp>>
+           /\ UNCHANGED <<st, desc, cur, exp, flt>>
 
 \* end of the behaviour: every exported text was reloaded (unless the behaviour asked for exports only)
 TEnd == /\ IsEvent("end")
         /\ st \in {"refused", "set", "loaded"}
         /\ \A k \in DOMAIN exp : (exp[k].ok /\ exp[k].reload = 1) => exp[k].text \in rel
-        /\ st' = "none" /\ desc' = NoDesc /\ cur' = NoSum /\ exp' = <<>> /\ rel' = {}
+        /\ st' = "none" /\ desc' = NoDesc /\ cur' = NoSum /\ exp' = <<>> /\ rel' = {} /\ flt' = DefaultFlt
 
-Next == TReset \/ TSetModel \/ TSetHostile \/ TLoad \/ TPerturb \/ TExport \/ TReload \/ TEnd
+Next == TReset \/ TFilter \/ TSetModel \/ TSetHostile \/ TLoad \/ TPerturb \/ TExport \/ TReload \/ TEnd
 Spec == Init /\ [][Next]_vars
 
 Accepted == TLCGet("stats").diameter - 1 = Len(T)
